@@ -534,25 +534,25 @@ func (p Sqlite) UpdateContactPoint(contact *alertutils.Contact) error {
 		return err
 	}
 
-	if len(contact.Slack) != 0 {
-		err := p.db.Model(&alertutils.Contact{ContactId: contact.ContactId}).Association("Slack").Clear()
-		if err != nil {
-			err = fmt.Errorf("UpdateContactPoint: unable to update contact : %v, Error=%+v", contact.ContactName, err)
-			log.Error(err.Error())
-			return err
+	// clear the old associations and save the new contact in one transaction, so that a rejected
+	// update (e.g. the new name belongs to another contact) leaves the stored contact as it was
+	err = p.db.Transaction(func(tx *gorm.DB) error {
+		if len(contact.Slack) != 0 {
+			err := tx.Model(&alertutils.Contact{ContactId: contact.ContactId}).Association("Slack").Clear()
+			if err != nil {
+				return err
+			}
 		}
-	}
-	if len(contact.Webhook) != 0 {
-		err := p.db.Model(&alertutils.Contact{ContactId: contact.ContactId}).Association("Webhook").Clear()
-		if err != nil {
-			err = fmt.Errorf("UpdateContactPoint: unable to update contact: %v, Error=%+v", contact.ContactName, err)
-			log.Error(err.Error())
-			return err
+		if len(contact.Webhook) != 0 {
+			err := tx.Model(&alertutils.Contact{ContactId: contact.ContactId}).Association("Webhook").Clear()
+			if err != nil {
+				return err
+			}
 		}
-	}
-	result := p.db.Session(&gorm.Session{FullSaveAssociations: true}).Save(&contact)
-	if result.Error != nil && result.RowsAffected != 1 {
-		err := fmt.Errorf("UpdateContactPoint: unable to update contact: %v, Error=%+v", contact.ContactName, err)
+		return tx.Session(&gorm.Session{FullSaveAssociations: true}).Save(&contact).Error
+	})
+	if err != nil {
+		err = fmt.Errorf("UpdateContactPoint: unable to update contact: %v, Error=%+v", contact.ContactName, err)
 		log.Error(err.Error())
 		return err
 	}
